@@ -4,7 +4,7 @@
    executable IEEE model; decode side: model/Convert.v.  The implementation (which picks copy / colour-convert /
    universal variants per input) is compared with this model byte for byte on all 35 pixel formats. *)
 From Coq Require Import ZArith List Bool Lia.
-From DDSV Require Import model.Float model.Convert model.Encode spec.SpecNum proofs.EncodeProofsA proofs.EncodeProofsB proofs.EncodeProofsC proofs.FloatMono proofs.FloatTotal proofs.QuantProofs proofs.QuantProofs16 proofs.QuantProofsSmall.
+From DDSV Require Import model.Float model.Convert model.Encode spec.SpecNum proofs.EncodeProofsA proofs.EncodeProofsB proofs.EncodeProofsC proofs.FloatMono proofs.FloatTotal proofs.QuantProofs proofs.QuantProofs16 proofs.QuantProofsSmall model.EncChunks proofs.EncChunksProofs.
 Import ListNotations.
 Local Open Scope Z_scope.
 
@@ -77,6 +77,15 @@ Proof. exact s8_from_level. Qed.
 Example C12_ex : encode_px 6 (to_rgba_f32 3 0 [255; 128; 0; 255]) = [0; 252] /\ encode_px 21 (to_rgba_f32 0 1 [45772]) = le_bytes 4 (715 + Z.shiftl 715 10 + Z.shiftl 715 20 + Z.shiftl 3 30).
 Proof. split; vm_compute; reflexivity. Qed.
 
+(* "the encoded bytes do not depend on ... row pitches": for_each_chunk (model/EncChunks.v, tied to the code by the chunk
+   traces of tag 54) hands the encoder exactly the same sequence of chunks whether the view is contiguous (slice::chunks
+   over the whole image) or has padded rows (the fill / flush loop), for every buffer size, width, height and content *)
+Theorem C12_chunks_pitch_independent : forall (X : Type) (n : nat), (1 <= n)%nat -> forall rows : list (list X),
+  fec_rows X n rows = fec_contiguous X n rows.
+Proof. exact fec_rows_eq_contiguous. Qed.
+Example C12_chunks_ex : fec_rows nat 4 [[1; 2; 3]; [4; 5; 6]; [7; 8; 9]]%nat = [[1; 2; 3; 4]; [5; 6; 7; 8]; [9]]%nat.
+Proof. reflexivity. Qed.
+
 Definition C12_all := (C12_roundtrip_u8, C12_roundtrip_u16, C12_quantise_u8, C12_quantise_u16, C12_f32_into_unorm8, C12_f32_into_unorm8_between, C12_f32_into_unorm16,
-  C12_f32_into_n2, C12_f32_into_n4, C12_f32_into_n5, C12_f32_into_n6, C12_f32_into_n10, C12_f32_into_s8, C12_s8_from_level, C12_f32_into_unorm8_outside, C12_f32_into_unorm16_outside).
+  C12_f32_into_n2, C12_f32_into_n4, C12_f32_into_n5, C12_f32_into_n6, C12_f32_into_n10, C12_f32_into_s8, C12_s8_from_level, C12_f32_into_unorm8_outside, C12_f32_into_unorm16_outside, C12_chunks_pitch_independent).
 Redirect "props/C12.assumptions" Print Assumptions C12_all.
